@@ -188,8 +188,31 @@ def identities_violations(dist, desc, rng, cond_dim):
     return out
 
 
+def out_of_support_violations():
+    """change of variables where the inverse image leaves the base support: base log-density is minus infinity there, so log_prob must be
+    EXACTLY -inf (reference: the support, not the library's own wrapper)"""
+    from flowjax.distributions import Uniform, Exponential
+    wit = []
+    cases = [("Transformed(Uniform(0,1), Affine(0.3, 2))", Transformed(Uniform(0.0, 1.0), B.Affine(0.3, 2.0)), [-1.0, 0.29, 2.31, 5.0], [0.5, 1.0, 2.0]),
+             ("Transformed(Exponential(1.5), Affine(-1, 0.5))", Transformed(Exponential(1.5), B.Affine(-1.0, 0.5)), [-1.5, -1.01, -30.0], [-0.5, 0.0, 3.0]),
+             ("Transformed(Uniform(0,1), Exp)", Transformed(Uniform(0.0, 1.0), B.Exp()), [0.5, 0.99, 2.8, 10.0], [1.5, 2.0])]
+    for name, d, outside, inside in cases:
+        for x in outside:
+            v = float(d.log_prob(jnp.asarray(x)))
+            if not (np.isinf(v) and v < 0):
+                wit.append(dict(key=f"{name}|outside|x={x}", kind="outside", name=name, x=x, law="log_prob is minus infinity where the inverse image is outside the base support", got=v, want="-inf"))
+        for x in inside:
+            v = float(d.log_prob(jnp.asarray(x)))
+            if not np.isfinite(v):
+                wit.append(dict(key=f"{name}|inside|x={x}", kind="outside", name=name, x=x, law="log_prob is finite inside the support", got=v, want="finite"))
+    return wit
+
+
 def search(hints, tier, rng):
     wit = []
+    wit += out_of_support_violations()
+    if wit:
+        return wit[:5]
     from props import flows as pflows
     wit += pflows.search_flows(tier, rng)
     if len(wit) >= 5:
@@ -245,4 +268,6 @@ def replay(w):
     if w.get("kind") == "nested_invert":
         from props import oracles
         return bool(oracles.replay_witness(w))
+    if w.get("kind") == "outside":
+        return any(x["key"] == w["key"] for x in out_of_support_violations())
     return bool(search({}, "quick", random.Random(0)))
